@@ -37,7 +37,7 @@ FewKinds(isApp) ==
 (* integer constants a Fee comparison can involve: everything >= 100, plus 0/1 for `Fee == 0`, `Fee > 0` *)
 FeeReps(P)  == {0, 1, 272000, 272001, U64MAX}
                \cup Around({ c \in IntConsts(P) : 100 <= c /\ c <= 1000000 }, 0, 1000001)
-AddrReps    == {ZEROADDR, 1, CREATOR, ATTACKER}
+AddrReps    == {ZEROADDR, 1, 2, CREATOR, ATTACKER}
 FreeReps    == {0, 1, 7}
 
 (* the state-space part of the own transaction: read fields vary, the others sit at a default that
